@@ -567,6 +567,17 @@ def versionOk (ver : Str) : Bool :=
   && (match compareVersion ver v070 with | .ok r => r != -1 | _ => false)
   && (match compareVersion ver v080 with | .ok r => r != -1 | _ => false)
 
+def cmpGe (va vb : Str) : Bool := match compareVersion va vb with | .ok r => r != -1 | _ => false
+def cmpLt (va vb : Str) : Bool := match compareVersion va vb with | .ok r => r == -1 | _ => false
+
+/-- a version string of the 0.7 generation: 0.7.0 ≤ ver < 0.8.0 as `compare_version` sees it -/
+def version07Ok (ver : Str) : Bool :=
+  noNulEnd ver && cmpGe ver v060 && cmpGe ver v070 && cmpLt ver v080
+
+/-- a version string of the 0.6 generation: 0.6.0 ≤ ver < 0.7.0 -/
+def version06Ok (ver : Str) : Bool :=
+  noNulEnd ver && cmpGe ver v060 && cmpLt ver v070 && cmpLt ver v080
+
 /-- hypothesis of the fixpoint theorem: no info value ends in NUL -/
 def infoNoNul (i : Info) : Bool := i.all fun kv => kv.1 == kFilePath || noNulEnd kv.2
 
